@@ -273,7 +273,7 @@ class Command(metaclass=_CommandTracker):
             destination = destination.address_obj
         if isinstance(destination, int):
             destination = address.Short(destination)
-        if hasattr(destination, 'add_to_frame'):
+        if isinstance(destination, address.Address):
             return destination
         raise ValueError('destination must be an integer, dali.bus.Device '
                          'object or dali.address.Address object')
